@@ -100,4 +100,346 @@ theorem readLoop_run (dev : Bool) (a : Nat) :
     · simp only [hdl, if_false, run_send, MemUnit.step_dtr0 u dev l hl.1]
       exact body _ hl hadv hb hst rfl
 
+
+
+theorem Bank.readCells_isSome (b : Bank) (t : Nat) (locs : List Nat) :
+    (b.readCells t locs).isSome = true ↔ ∀ l ∈ locs, b.readable l = true := by
+  induction locs with
+  | nil => simp [Bank.readCells]
+  | cons l ls ih =>
+    simp only [Bank.readCells, Bank.cellAt, List.mem_cons, forall_eq_or_imp]
+    by_cases h : b.readable l = true
+    · simp only [h, if_true, true_and]
+      rw [← ih]; cases b.readCells t ls <;> simp
+    · simp [h]
+
+theorem Bank.readCells_eq_map (b : Bank) (t : Nat) (locs : List Nat)
+    (h : ∀ l ∈ locs, b.readable l = true) : b.readCells t locs = some (locs.map (b.content t)) := by
+  induction locs with
+  | nil => rfl
+  | cons l ls ih =>
+    have hl := h l (by simp)
+    have := ih (fun x hx => h x (by simp [hx]))
+    simp [Bank.readCells, Bank.cellAt, hl, this]
+
+/-- `read_raw` against a conforming unit that implements the bank, whatever its
+registers held before -/
+theorem readRaw_run (u : MemUnit) (dev : Bool) (a bank : Nat) (locs : List Nat)
+    (hl : u.Listens dev a) (hadv : u.advance = true) (hb : u.bank.number = bank) (hst : u.bank.Stable)
+    (hlocs : ∀ l ∈ locs, l ≤ 255) :
+    ((readRaw (if dev then .devShort a else .gearShort a) bank locs).run MemUnit.step u).1 =
+      readOutcome (u.bank.readCells 0 locs) ∧
+    ((readRaw (if dev then .devShort a else .gearShort a) bank locs).run MemUnit.step u).2.bank = u.bank := by
+  have hres : resolveAddr (if dev then .devShort a else .gearShort a) = .ok (dev, a) := by
+    cases dev <;> rfl
+  unfold readRaw
+  rw [hres]
+  simp only [run_send, MemUnit.step_dtr1 u dev bank hl.1]
+  have := readLoop_run dev a locs { u with dtr1 := bank, clock := u.clock + 1 } none [] hl hadv
+    hb.symm hst hlocs (by intro x hx; cases hx)
+  obtain ⟨h1, h2⟩ := this
+  constructor
+  · rw [h1]; cases u.bank.readCells 0 locs <;> simp [readOutcome]
+  · rw [h2]
+
+/-- nobody implements that bank: every read is silent -/
+theorem readLoop_absent (dev : Bool) (a : Nat) :
+    ∀ (locs : List Nat) (u : MemUnit) (d : Option Nat) (acc : List Nat),
+      u.Listens dev a → u.dtr1 ≠ u.bank.number → locs ≠ [] →
+      ((readLoop dev a locs d acc).run MemUnit.step u).1 = .error .MemoryLocationNotImplemented ∧
+      ((readLoop dev a locs d acc).run MemUnit.step u).2.bank = u.bank := by
+  intro locs u d acc hl hb hne
+  cases locs with
+  | nil => exact absurd rfl hne
+  | cons l ls =>
+    unfold readLoop
+    by_cases hdl : d = some l
+    · simp [hdl, MemUnit.step_read_absent u dev a hl hb]
+    · simp only [hdl, if_false, run_send, MemUnit.step_dtr0 u dev l hl.1]
+      have := MemUnit.step_read_absent { u with dtr0 := l, clock := u.clock + 1 } dev a hl hb
+      rw [this]
+      simp
+
+theorem readRaw_run_absent (u : MemUnit) (dev : Bool) (a bank : Nat) (locs : List Nat)
+    (hl : u.Listens dev a) (hb : u.bank.number ≠ bank) (hne : locs ≠ []) :
+    ((readRaw (if dev then .devShort a else .gearShort a) bank locs).run MemUnit.step u).1 =
+      .error .MemoryLocationNotImplemented ∧
+    ((readRaw (if dev then .devShort a else .gearShort a) bank locs).run MemUnit.step u).2.bank = u.bank := by
+  have hres : resolveAddr (if dev then .devShort a else .gearShort a) = .ok (dev, a) := by
+    cases dev <;> rfl
+  unfold readRaw
+  rw [hres]
+  simp only [run_send, MemUnit.step_dtr1 u dev bank hl.1]
+  have := readLoop_absent dev a locs { u with dtr1 := bank, clock := u.clock + 1 } none [] hl
+    (by simpa using fun h => hb h.symm) hne
+  simpa using this
+
+/-- answers to READ MEMORY LOCATION in an exchange -/
+def readAnswers (tr : List (Cmd × Resp)) : List Resp :=
+  tr.filterMap fun cr => match cr.1 with | .readMemoryLocation .. => some cr.2 | _ => none
+
+theorem readLoop_faults (dev : Bool) (a : Nat) :
+    ∀ (locs : List Nat) (d : Option Nat) (acc : List Nat) (tr : List (Cmd × Resp)) (out : PyRes (List Nat)),
+      Out (readLoop dev a locs d acc) tr out →
+        (∃ bs, out = .ok (acc ++ bs) ∧ readAnswers tr = bs.map .byte ∧ bs.length = locs.length) ∨
+        (∃ bs : List Nat, out = .error .MemoryLocationNotImplemented ∧ readAnswers tr = bs.map .byte ++ [.none]) ∨
+        (∃ bs : List Nat, out = .error .ResponseError ∧ readAnswers tr = bs.map .byte ++ [.err]) := by
+  intro locs
+  induction locs with
+  | nil =>
+    intro d acc tr out h
+    simp [readLoop] at h
+    left; exact ⟨[], by simp [h.2], by simp [h.1, readAnswers], rfl⟩
+  | cons l ls ih =>
+    intro d acc tr out h
+    have body : ∀ tr, Out (Prog.send (.readMemoryLocation dev a) fun r =>
+            match r with
+            | .none => Prog.fail .MemoryLocationNotImplemented
+            | .err => Prog.fail .ResponseError
+            | .byte b => readLoop dev a ls (some (min (l + 1) 255)) (acc ++ [b])) tr out →
+        (∃ bs, out = .ok (acc ++ bs) ∧ readAnswers tr = bs.map .byte ∧ bs.length = (l :: ls).length) ∨
+        (∃ bs : List Nat, out = .error .MemoryLocationNotImplemented ∧ readAnswers tr = bs.map .byte ++ [.none]) ∨
+        (∃ bs : List Nat, out = .error .ResponseError ∧ readAnswers tr = bs.map .byte ++ [.err]) := by
+      intro tr h
+      simp only [out_send] at h
+      obtain ⟨r, tr', rfl, h⟩ := h
+      cases r with
+      | none => simp at h; right; left; exact ⟨[], h.2, by simp [readAnswers, h.1]⟩
+      | err => simp at h; right; right; exact ⟨[], h.2, by simp [readAnswers, h.1]⟩
+      | byte b =>
+        simp only at h
+        rcases ih _ _ _ _ h with ⟨bs, h1, h2, h3⟩ | ⟨bs, h1, h2⟩ | ⟨bs, h1, h2⟩
+        · left; exact ⟨b :: bs, by simp [h1], by simp [readAnswers] at h2 ⊢; exact h2, by simp [h3]⟩
+        · right; left; exact ⟨b :: bs, h1, by simp [readAnswers] at h2 ⊢; exact h2⟩
+        · right; right; exact ⟨b :: bs, h1, by simp [readAnswers] at h2 ⊢; exact h2⟩
+    unfold readLoop at h
+    by_cases hdl : d = some l
+    · simp only [hdl, if_true] at h; exact body tr h
+    · simp only [hdl, if_false] at h
+      rw [out_send] at h
+      obtain ⟨r, tr', rfl, h⟩ := h
+      have := body tr' h
+      simpa [readAnswers] using this
+
+
+
+
+/-- the sequential reads of `read_all`: cell by cell what the unit holds at the
+moment of each read, DTR0 auto-increment, memory untouched -/
+theorem readAllLoop_run (dev : Bool) (a : Nat) :
+    ∀ (n : Nat) (u : MemUnit) (acc : List (Option Nat)),
+      u.Listens dev a → u.advance = true → u.dtr1 = u.bank.number → u.dtr0 ≤ 255 → u.dtr0 + n ≤ 256 →
+      (readAllLoop dev a n acc).run MemUnit.step u =
+        (.ok (acc ++ (List.range n).map (fun j => u.bank.cellAt (u.clock + j) (u.dtr0 + j)), false),
+          { u with clock := u.clock + n, dtr0 := min (u.dtr0 + n) 255,
+                   we := if n = 0 then u.we else false }) := by
+  intro n
+  induction n with
+  | zero =>
+    intro u acc _ _ _ hd h
+    simp only [readAllLoop, run_done, List.range_zero, List.map_nil, List.append_nil, Nat.add_zero, if_true]
+    have : min u.dtr0 255 = u.dtr0 := by omega
+    rw [this]
+  | succ n ih =>
+    intro u acc hl hadv hb hd hn
+    simp only [readAllLoop, run_send, MemUnit.step_read u dev a hl hb]
+    have hinc : u.incDtr0 = min (u.dtr0 + 1) 255 := MemUnit.incDtr0_eq u hadv hd
+    have key : ∀ (o : Option Nat), o = u.bank.cellAt u.clock u.dtr0 →
+        (readAllLoop dev a n (acc ++ [o])).run MemUnit.step
+            { u with we := false, dtr0 := u.incDtr0, clock := u.clock + 1 } =
+          (.ok (acc ++ (List.range (n + 1)).map (fun j => u.bank.cellAt (u.clock + j) (u.dtr0 + j)), false),
+            { u with clock := u.clock + (n + 1), dtr0 := min (u.dtr0 + (n + 1)) 255,
+                     we := if n + 1 = 0 then u.we else false }) := by
+      intro o ho
+      rw [ih { u with we := false, dtr0 := u.incDtr0, clock := u.clock + 1 } (acc ++ [o]) hl hadv hb
+        (by simp only [hinc]; omega) (by simp only [hinc]; omega)]
+      simp only [hinc]
+      have hlist : acc ++ [o] ++ (List.range n).map (fun j =>
+            u.bank.cellAt (u.clock + 1 + j) (min (u.dtr0 + 1) 255 + j)) =
+          acc ++ (List.range (n + 1)).map (fun j => u.bank.cellAt (u.clock + j) (u.dtr0 + j)) := by
+        rw [List.range_succ_eq_map, List.map_cons, List.map_map, List.append_assoc]
+        congr 1
+        simp only [List.singleton_append, Nat.add_zero, ho]
+        congr 1
+        apply List.map_congr_left
+        intro j hj
+        have hj' : j < n := List.mem_range.mp hj
+        have : min (u.dtr0 + 1) 255 = u.dtr0 + 1 := by omega
+        simp only [Function.comp, this]
+        have e1 : u.clock + 1 + j = u.clock + j.succ := by omega
+        have e2 : u.dtr0 + 1 + j = u.dtr0 + j.succ := by omega
+        rw [e1, e2]
+      rw [hlist]
+      have e1 : u.clock + 1 + n = u.clock + (n + 1) := by omega
+      have e2 : min (min (u.dtr0 + 1) 255 + n) 255 = min (u.dtr0 + (n + 1)) 255 := by omega
+      simp only [e1, e2, Nat.succ_ne_zero, if_false]
+      congr 2
+      split <;> rfl
+    cases hc : u.bank.cellAt u.clock u.dtr0 with
+    | none => simp only [respOf]; exact key none hc.symm
+    | some x => simp only [respOf]; exact key (some x) hc.symm
+
+
+
+
+theorem bind_send {α β} (c : Cmd) (k : Resp → Prog α) (f : α → Prog β) :
+    (Prog.send c k).bind f = .send c (fun r => (k r).bind f) := rfl
+theorem bind_done {α β} (x : α) (f : α → Prog β) : (Prog.done x).bind f = f x := rfl
+theorem bind_fail {α β} (e : PyErr) (f : α → Prog β) : (Prog.fail e : Prog α).bind f = .fail e := rfl
+
+theorem resolve_short (dev : Bool) (a : Nat) :
+    resolveAddr (if dev then .devShort a else .gearShort a) = .ok (dev, a) := by cases dev <;> rfl
+
+namespace MemUnit
+theorem step_writeNR (u : MemUnit) (dev : Bool) (v : Nat) (h : u.dev = dev) :
+    u.step (.writeMemoryLocationNoReply dev v) =
+      ((u.writeCell v false).1, { (u.writeCell v false).2 with clock := u.clock + 1 }) := by
+  simp [step, exec, h]
+end MemUnit
+
+/-- the reads and the un-latch, from a unit whose DTR0 is at `start` -/
+theorem readAllTail_run (u : MemUnit) (dev : Bool) (a : Nat) (latch : Bool) (start : Nat)
+    (hl : u.Listens dev a) (hadv : u.advance = true) (hb : u.dtr1 = u.bank.number)
+    (hd : u.dtr0 = start) (hs : start ≤ 255) (hlast : u.bank.last ≤ 255) :
+    (readAllTail dev a latch start u.bank.last).run MemUnit.step u =
+      (.ok (List.replicate start none ++
+          (List.range (u.bank.last + 1 - start)).map (fun j => u.bank.cellAt (u.clock + j) (start + j))),
+        if latch then
+          { u with clock := u.clock + (u.bank.last + 1 - start) + 3, dtr0 := (if 2 ≤ u.bank.last ∧ (u.bank.hasLock || u.bank.hasLatch) then 3 else 3),
+                   we := true,
+                   bank := if u.bank.canWrite u.unlockValue 2 then u.bank.store (u.clock + (u.bank.last + 1 - start) + 2) 2 0xFF else u.bank }
+        else
+          { u with clock := u.clock + (u.bank.last + 1 - start),
+                   dtr0 := min (start + (u.bank.last + 1 - start)) 255,
+                   we := if u.bank.last + 1 - start = 0 then u.we else false }) := by
+  unfold readAllTail
+  rw [run_bind, readAllLoop_run dev a _ u _ hl hadv hb (by omega) (by omega)]
+  subst hd
+  cases latch
+  · simp
+  · have hdev := hl.1
+    have haddr := hl.2
+    simp only [if_true, run_send, run_done]
+    by_cases hc : u.bank.canWrite u.unlockValue 2 = true
+    · simp [MemUnit.step, MemUnit.exec, MemUnit.writeCell, MemUnit.incDtr0, hdev, haddr, hb, hadv, hc]
+    · simp [MemUnit.step, MemUnit.exec, MemUnit.writeCell, MemUnit.incDtr0, hdev, haddr, hb, hadv, hc]
+
+
+
+
+/-- the unit as `read_all` leaves it before the reads start -/
+def MemUnit.afterLatch (u : MemUnit) (bank : Nat) (latch : Bool) : MemUnit :=
+  let start := if bank = 0 then 2 else 3
+  if latch then
+    { u with clock := u.clock + 3 + (if 3 ≠ start then 1 else 0), dtr0 := start, we := true,
+             bank := if u.bank.canWrite u.unlockValue 2 then u.bank.store (u.clock + 2) 2 0xAA else u.bank }
+  else { u with clock := u.clock + 1, dtr0 := start }
+
+theorem readAllFrom_run (u : MemUnit) (dev : Bool) (a bank : Nat) (latch : Bool) (last : Nat)
+    (hl : u.Listens dev a) (hadv : u.advance = true) (hb : u.dtr1 = u.bank.number) :
+    (readAllFrom dev a bank latch last).run MemUnit.step u =
+      (readAllTail dev a latch (if bank = 0 then 2 else 3) last).run MemUnit.step (u.afterLatch bank latch) := by
+  have hdev := hl.1
+  have haddr := hl.2
+  unfold readAllFrom MemUnit.afterLatch
+  cases latch
+  · by_cases h0 : bank = 0
+    · simp [h0, MemUnit.step, MemUnit.exec, hdev]
+    · simp [h0, MemUnit.step, MemUnit.exec, hdev]
+  · by_cases hc : u.bank.canWrite u.unlockValue 2 = true
+    · by_cases h0 : bank = 0
+      · simp [h0, MemUnit.step, MemUnit.exec, MemUnit.writeCell, MemUnit.incDtr0, hdev, haddr, hb, hadv, hc]
+      · simp [h0, MemUnit.step, MemUnit.exec, MemUnit.writeCell, MemUnit.incDtr0, hdev, haddr, hb, hadv, hc]
+    · by_cases h0 : bank = 0
+      · simp [h0, MemUnit.step, MemUnit.exec, MemUnit.writeCell, MemUnit.incDtr0, hdev, haddr, hb, hadv, hc]
+      · simp [h0, MemUnit.step, MemUnit.exec, MemUnit.writeCell, MemUnit.incDtr0, hdev, haddr, hb, hadv, hc]
+
+/-- `LastAddress.read` and hand-over to the rest -/
+theorem readAllBody_run (u : MemUnit) (dev : Bool) (a bank : Nat) (hasLatch useLatch : Bool)
+    (hl : u.Listens dev a) (hadv : u.advance = true) (hb : u.bank.number = bank) :
+    (readAllBody dev a bank hasLatch useLatch).run MemUnit.step u =
+      (readAllFrom dev a bank (useLatch && hasLatch) u.bank.last).run MemUnit.step
+        { u with clock := u.clock + 3, dtr0 := 1, dtr1 := bank, we := false } := by
+  have hdev := hl.1
+  have haddr := hl.2
+  have h0 : ∀ t, u.bank.cellAt t 0 = some u.bank.last := by
+    intro t; simp [Bank.cellAt, Bank.readable, Bank.implemented, Bank.content]
+  unfold readAllBody readRaw
+  rw [resolve_short]
+  simp [readLoop, bind_send, bind_done, MemUnit.step, MemUnit.exec, MemUnit.incDtr0, hdev, haddr, hb, hadv,
+    h0, respOf]
+
+
+
+
+theorem Bank.store_last (b : Bank) (t a v : Nat) : (b.store t a v).last = b.last := by
+  unfold Bank.store; split <;> rfl
+theorem Bank.store_number (b : Bank) (t a v : Nat) : (b.store t a v).number = b.number := by
+  unfold Bank.store; split <;> rfl
+
+theorem afterLatch_listens (w : MemUnit) (bank : Nat) (latch : Bool) {dev : Bool} {a : Nat}
+    (h : w.Listens dev a) : (w.afterLatch bank latch).Listens dev a := by
+  unfold MemUnit.afterLatch; cases latch <;> exact h
+
+theorem afterLatch_fields (w : MemUnit) (bank : Nat) (latch : Bool) :
+    (w.afterLatch bank latch).advance = w.advance ∧
+    (w.afterLatch bank latch).unlockValue = w.unlockValue ∧
+    (w.afterLatch bank latch).dtr0 = (if bank = 0 then 2 else 3) ∧
+    (w.afterLatch bank latch).bank.last = w.bank.last ∧
+    (w.afterLatch bank latch).dtr1 = w.dtr1 ∧
+    (w.afterLatch bank latch).bank.number = w.bank.number := by
+  unfold MemUnit.afterLatch
+  cases latch
+  · simp
+  · simp only [if_true]
+    refine ⟨trivial, trivial, trivial, ?_, trivial, ?_⟩
+    · split
+      · exact Bank.store_last _ _ _ _
+      · rfl
+    · split
+      · exact Bank.store_number _ _ _ _
+      · rfl
+
+/-- everything `read_all` does to a conforming unit that implements the bank, in one equation -/
+theorem readAll_run (u : MemUnit) (dev : Bool) (a bank : Nat) (hasLatch useLatch : Bool)
+    (hl : u.Listens dev a) (hadv : u.advance = true) (hb : u.bank.number = bank)
+    (hlast : u.bank.last ≤ 255) :
+    let latch := useLatch && hasLatch
+    let start := if bank = 0 then 2 else 3
+    let u1 : MemUnit := { u with clock := u.clock + 3, dtr0 := 1, dtr1 := bank, we := false }
+    let u2 := u1.afterLatch bank latch
+    (readAll (if dev then .devShort a else .gearShort a) bank hasLatch useLatch).run MemUnit.step u =
+      (.ok (List.replicate start none ++
+          (List.range (u.bank.last + 1 - start)).map (fun j => u2.bank.cellAt (u2.clock + j) (start + j))),
+        if latch then
+          { u2 with clock := u2.clock + (u.bank.last + 1 - start) + 3, dtr0 := 3, we := true,
+                    bank := if u2.bank.canWrite u.unlockValue 2 then
+                      u2.bank.store (u2.clock + (u.bank.last + 1 - start) + 2) 2 0xFF else u2.bank }
+        else
+          { u2 with clock := u2.clock + (u.bank.last + 1 - start),
+                    dtr0 := min (start + (u.bank.last + 1 - start)) 255,
+                    we := if u.bank.last + 1 - start = 0 then u2.we else false }) := by
+  intro latch start u1 u2
+  have hl1 : u1.Listens dev a := hl
+  have hb1 : u1.dtr1 = u1.bank.number := hb.symm
+  have hl2 : u2.Listens dev a := afterLatch_listens u1 bank latch hl1
+  have hadv2 : u2.advance = true := (afterLatch_fields u1 bank latch).1.trans hadv
+  have hunl : u2.unlockValue = u.unlockValue := (afterLatch_fields u1 bank latch).2.1
+  have hd2 : u2.dtr0 = start := (afterLatch_fields u1 bank latch).2.2.1
+  have hlast2 : u2.bank.last = u.bank.last := (afterLatch_fields u1 bank latch).2.2.2.1
+  have hb2 : u2.dtr1 = u2.bank.number := by
+    rw [(afterLatch_fields u1 bank latch).2.2.2.2.1, (afterLatch_fields u1 bank latch).2.2.2.2.2]
+    exact hb.symm
+  have hstart : start ≤ 255 := by show (if bank = 0 then 2 else 3) ≤ 255; split <;> omega
+  unfold readAll
+  rw [resolve_short]
+  simp only
+  rw [readAllBody_run u dev a bank hasLatch useLatch hl hadv hb,
+    readAllFrom_run u1 dev a bank latch u.bank.last hl1 hadv hb1]
+  have := readAllTail_run u2 dev a latch start hl2 hadv2 hb2 hd2 hstart (by rw [hlast2]; exact hlast)
+  rw [hlast2] at this
+  rw [this, hunl]
+  simp
+
+
 end DaliVerif.DevMem
